@@ -28,7 +28,7 @@ type c14Case struct {
 
 type c14Reader struct {
 	Kind  int `json:"kind,omitempty"` // which well-known error the injected error wraps (ops.FaultErr)
-	IO    int `json:"io,omitempty"`   // 1: the reader also implements io.WriterTo
+	IO    int `json:"io,omitempty"`   // ops IOKind: 1 the reader also implements io.WriterTo, 2 io.Closer, 5 it sits behind a *bufio.Reader
 	At    int `json:"at"`
 	Mode  int `json:"mode"` // 0: (0,E) after At bytes, sticky; 1: (n,E) with the last chunk; 2: (0,E) once, then the reader works again
 	Chunk int `json:"chunk,omitempty"`
@@ -167,7 +167,7 @@ func c14All(t failer, col *collector, c c14Case, stride int) {
 					continue
 				}
 				cc := c
-				cc.Reader = &c14Reader{At: k, Mode: mode, Chunk: []int{0, 1, 7}[(k+mode)%3], Kind: (k + 3*mode) % 6, IO: (k / 2) % 2}
+				cc.Reader = &c14Reader{At: k, Mode: mode, Chunk: []int{0, 1, 7}[(k+mode)%3], Kind: (k + 3*mode) % 6, IO: []int{0, 1, 5, 0, 2}[(k/2)%5]}
 				pos := "reader@inside"
 				if k == 0 {
 					pos = "reader@0"
@@ -200,6 +200,9 @@ func c14All(t failer, col *collector, c c14Case, stride int) {
 				switch v {
 				case 1:
 					cc.Writer.Short = 1
+					if j%2 == 1 {
+						cc.Writer.Short = -1 // (len(p), err): the bytes were taken, the write failed all the same
+					}
 				case 2:
 					cc.Writer.Once = true
 				}
@@ -309,4 +312,36 @@ func TestC14Random(t *testing.T) {
 		}
 		c14All(rt, col, c, stride)
 	})
+}
+
+
+// Readers that fail without a fault injector: an empty regular file opened write-only (nothing remains to be read, but Read
+// fails with EBADF). The call must return that error.
+func TestC14OddReaders(t *testing.T) {
+	col := coll("C14", "odd-readers")
+	col.Rule = "an empty regular file opened write-only as the reader (Read fails with EBADF) x operation x output mode x {simple, massive} x {From-Markdown functions, deprecated aliases}; the call must return an error that errors.Is EBADF; non-trivial = always"
+	n := 0
+	for _, op := range []string{"output", "walk", "mkdir", "verify"} {
+		modes := []string{"text"}
+		if op == "output" {
+			modes = []string{"text", "noiter", "json", "yaml", "toml", "dryrun"}
+		}
+		for _, mode := range modes {
+			for _, massive := range []bool{false, true} {
+				for _, entry := range []string{"md", "mdalias"} {
+					n++
+					if n%nshards != shard {
+						continue
+					}
+					c := c14Case{Forest: model.Forest{{Name: "a"}}, Sp: model.Plain2, Op: op, Mode: mode, Entry: entry, Massive: massive}
+					c.Reader = &c14Reader{At: 0, IO: 6}
+					col.eval(true, hash64(fmt.Sprint(op, mode, massive, entry)), "op:"+op, "mode:"+mode, fmt.Sprintf("massive:%v", massive))
+					if msg := c14CheckOne(c); msg != "" {
+						violation(t, "C14", "c14", c, msg)
+					}
+				}
+			}
+		}
+	}
+	col.Exhaustive = true
 }
